@@ -119,6 +119,20 @@ CHECKS = {
             F("FuzzC12Stream", "90s"),
         ],
     },
+    "C13": {
+        "pkg": "c13", "level": "exploration",
+        "manifest": {
+            "text": "generated operation sequences through the real client and the real ServeAgent against a recording agent with scripted results (argument and result equality, byte-for-byte), plus the real server with a fake PIV tool whose output and exit status are generated",
+            "note": "the three in-band status ambiguities (error text SUCCESS for add-hardware-certificate / wait; empty error text for the slot listing) are listed known findings: excluded from the generator by construction, probed deterministically on every run",
+            "technique": "property-based testing (rapid): scripted recording double + differential argument/result comparison; generated tool output with a reference parser",
+        },
+        "assumptions": ["slot names returned by a served agent contain no comma (the reply is an SSH name-list)", "the fake tool is a /bin/sh script; slot arguments contain no newline or NUL"],
+        "subchecks": [
+            E("TestC13KnownFindings"),
+            R("TestC13Client", 1500, 8000, quick_extra={"timeout": 120}, thorough_extra={"timeout": 900}),
+            R("TestC13Tool", 150, 500),
+        ],
+    },
     "C14": {
         "pkg": "c14", "level": "exploration",
         "manifest": {
